@@ -181,6 +181,9 @@ def _nontrivial(items) -> bool:
     return any(it["i"] in ("sub", "lst", "lineC", "blockC") or (it["i"] == "kv" and it["v"]["t"] == "quoted") for it in items)
 
 
+_SHARED_PARSER = None
+
+
 def process(ctx: Ctx, cases: list[dict]) -> None:
     from dictIO import DictReader, NativeParser, SDict
     reqs = [{"op": "parse_native", "text": c["text"], "start": -1} for c in cases]
@@ -197,6 +200,23 @@ def process(ctx: Ctx, cases: list[dict]) -> None:
         rs = spec.strip_placeholders(r)
         if not same(rs, exp):
             ctx.violation("reader result differs from the tree denoted by the documented grammar", c, enc(rs), c["den"])
+        global _SHARED_PARSER
+        if _SHARED_PARSER is None:
+            _SHARED_PARSER = NativeParser()
+        try:
+            reset_globals()
+            r2 = spec.strip_placeholders(impl.plain(_SHARED_PARSER.parse_string(text, SDict())))
+            if c.get("file"):
+                with impl.scratch() as td:
+                    (td / "f").write_bytes(text.encode("utf-8"))
+                    reset_globals()
+                    r3 = spec.strip_placeholders(impl.plain(DictReader.read(td / "f", parser=_SHARED_PARSER)))
+            else:
+                r3 = r2
+        except Exception as e:  # noqa: BLE001
+            ctx.violation("a parser object that is used again raises on well-formed text", c, repr(e), c["den"]); continue
+        if not same(r2, exp) or not same(r3, exp):
+            ctx.violation("a parser object that was used for earlier texts returns something else than the denoted tree", c, enc(r2 if not same(r2, exp) else r3), c["den"])
         if c.get("file"):
             try:
                 with impl.scratch() as td:
@@ -280,7 +300,7 @@ def run(ctx: Ctx) -> None:
 
 
 def replay(ctx: Ctx, case: dict) -> None:
-    process(ctx, [case])
+    process(ctx, [case] * 3)       # the shared parser object carries state from text to text
 
 
 def shrink_violation(v: dict) -> dict:
